@@ -168,6 +168,39 @@ func C03(r *h.Run) {
 		}
 	}
 
+	// 2b. a handler that keeps receiving after a message beyond the read limit: the reader
+	// skips the oversize payload and must land exactly on the next envelope however the
+	// transport cut the bytes
+	for i := 0; i < r.N(24, 120); i++ {
+		cfg := envCfg{Proto: []string{"grpc", "grpcweb", "connect"}[i%3], Max: 8 + rng.Intn(24), KeepReceiving: true}
+		var body []byte
+		for k := 0; k < 2+rng.Intn(4); k++ {
+			n := rng.Intn(cfg.Max + 1)
+			if k == 1 || rng.Intn(3) == 0 {
+				n = cfg.Max + 1 + rng.Intn(60) // beyond the limit
+			}
+			body = append(body, h.Frame(0, genPayload(rng, n))...)
+		}
+		what := "messages beyond the read limit followed by further messages; the handler keeps receiving"
+		whole := envRun(r, "handler_keep_receiving", cfg, false, [][]byte{body}, h.FinCleanEOF, len(body) < 400, what)
+		variants := [][][]byte{h.OneByteChunks(body)}
+		for _, sz := range []int{2, 3, 7, 100} {
+			var cuts []int
+			for pos := sz; pos < len(body); pos += sz {
+				cuts = append(cuts, pos)
+			}
+			variants = append(variants, h.SplitAt(body, cuts))
+		}
+		for k := 0; k < 4 && len(body) > 1; k++ {
+			variants = append(variants, h.SplitAt(body, []int{1 + rng.Intn(len(body)-1)}))
+		}
+		for vi, chunks := range variants {
+			fin := []h.FinKind{h.FinCleanEOF, h.FinEOFWithData}[vi%2]
+			got := envRun(r, "handler_keep_receiving", cfg, false, chunks, fin, vi < 2 && len(body) < 300, what)
+			check("handler_keep_receiving", cfg, body, whole, got, chunks, fin, what)
+		}
+	}
+
 	// 3. unary Connect bodies
 	for i := 0; i < r.N(40, 200); i++ {
 		cfg := randomCfg(rng)
@@ -241,6 +274,13 @@ func C03(r *h.Run) {
 			frames = append(frames, h.Frame(0, genPayload(rng, rng.Intn(12)))...)
 		}
 		frames = append(frames, h.Frame(0, genPayload(rng, 17+rng.Intn(40)))...)
+		if i%4 >= 2 {
+			// more of the response follows the oversize message: the client throws it away,
+			// in however many reads it takes, before it reads the status
+			for k := 0; k < 3+rng.Intn(3); k++ {
+				frames = append(frames, h.Frame(0, genPayload(rng, 150+rng.Intn(200)))...)
+			}
+		}
 		v := verdict{Kind: "ok"}
 		if i%2 == 0 {
 			v = verdict{Kind: "err", Code: connect.Code(1 + rng.Intn(16))}
